@@ -225,6 +225,15 @@ type GhostField struct {
 	Type  *SType
 }
 
+// GuardSpec: field Field of struct Owner may only be read with the lock held and written with it write-held.
+type GuardSpec struct {
+	Pos   SPos
+	Owner *SType
+	Field string
+	Mutex string
+	Tags  []string
+}
+
 type AxiomSpec struct {
 	Pos  SPos
 	Name string
@@ -241,6 +250,7 @@ type SpecFile struct {
 	GhostFuncs  []*GhostFunc
 	GhostFields []*GhostField
 	Axioms      []*AxiomSpec
+	Guards      []*GuardSpec
 	Tokens      map[string]int // counts of assume/axiom/trusted tokens (mechanical scan)
 }
 
@@ -382,7 +392,7 @@ func (l *lexer) here() SPos { return SPos{l.file, l.peek().line} }
 
 var clauseKeywords = map[string]bool{"requires": true, "ensures": true, "assigns": true, "safety": true, "inline": true,
 	"trusted": true, "loop": true, "iter": true, "invariant": true, "panics": true, "frame": true, "pure": true,
-	"ghost": true, "func": true, "axiom": true, "unroll": true, "fresh": true, "note": true, "external": true, "visit": true, "iterator": true, "exit": true}
+	"ghost": true, "func": true, "axiom": true, "unroll": true, "fresh": true, "note": true, "external": true, "visit": true, "iterator": true, "exit": true, "guarded": true}
 
 type eparser struct {
 	l *lexer
@@ -975,6 +985,28 @@ func parseSpecLines(path string, lines []string, lineNos []int) (*SpecFile, erro
 			default:
 				return nil, p.errf("ghost func|field expected")
 			}
+			cur, curLoop = nil, nil
+		case "guarded":
+			// guarded [tags] pkg.Type.field by mutexField
+			lx.next()
+			g := &GuardSpec{Pos: SPos{path, t.line}}
+			g.Tags = p.parseTags()
+			a := lx.next().val
+			lx.expect(".")
+			b := lx.next().val
+			if lx.accept(".") {
+				g.Owner = &SType{Kind: "name", Pkg: a, Name: b}
+				g.Field = lx.next().val
+			} else {
+				g.Owner = &SType{Kind: "name", Name: a}
+				g.Field = b
+			}
+			if !lx.isID("by") {
+				return nil, p.errf("expected 'by'")
+			}
+			lx.next()
+			g.Mutex = lx.next().val
+			sf.Guards = append(sf.Guards, g)
 			cur, curLoop = nil, nil
 		case "axiom":
 			lx.next()
